@@ -1,4 +1,10 @@
 import LC.Props.C15
+import LC.Props.C15Parse
 #print axioms LC.V1Glue.parse_build
 #print axioms LC.V1Glue.register_distinct
 #print axioms LC.V1Glue.register_duplicate
+#print axioms LC.V1Glue.parse_none_iff_odd
+#print axioms LC.V1Glue.parse_length
+#print axioms LC.V1Glue.build_even
+#print axioms LC.V1Glue.roundtrip_register
+#print axioms LC.V1Glue.roundtrip_duplicate
